@@ -1804,9 +1804,17 @@ class Exec:
             # models of the std algorithms over vector iterators (assumed contracts)
             src = args[0].lst[args[0].i:args[1].i]
             if name == 'accumulate':
+                # contract of std::accumulate<It, T>: the accumulator has the type T of the initial value (= the type of the call), every step is
+                # acc = T(acc + x): with an integral T over real elements each partial sum is converted (truncated) - 'to_integral' supplies that contract
                 acc = args[2]
+                rty = n['type'].get('qualType', '').replace('const ', '').strip()
+                integral = rty in ('int', 'long', 'unsigned int', 'unsigned long', 'long long', 'short', 'char', 'bool', 'votca::Index', 'Index', 'size_t', 'std::size_t')
                 for x in src:
                     acc = args[3](acc, x) if len(args) > 3 else s.arith('+', acc, x)
+                    if integral and not isinstance(acc, (int, bool, SInt)) and not (isinstance(acc, D) and acc.v.is_Integer):
+                        if 'to_integral' not in s.cb:
+                            raise Unsupported('std::accumulate with accumulator type %s over non-integer elements (each partial sum is truncated); no conversion contract configured' % rty)
+                        acc = s.cb['to_integral'](acc, rty)
                 return acc
             dst = args[2]
             for j, x in enumerate(src):
